@@ -197,6 +197,20 @@ def l1(part, r, n):
                 part.case(key='seqtext:' + sbuf.hex(), nontrivial=b':' in sbuf or b',' in sbuf)
                 if simpl != smod:
                     part.violation('correspondence', f'SequenceSet.parse({sbuf!r}) = {simpl}, SeqText.parse = {smod}', dict(level='L1', seqtext=list(sbuf)), signature='l1-seqtext')
+            # ---- the value a flag is known by vs FlagText.norm (C18_flag_norm_idem, C18_flag_case_insensitive, C18_flag_keyword)
+            with guarded(part, 'C18 L1 flag', dict(level='L1')):
+                base = r.choice([b'\\Seen', b'\\Recent', b'\\Deleted', b'\\Answered', b'\\Flagged', b'\\Draft', b'\\X-custom', b'\\', b'kw', b'$Forwarded', b'NonJunk', b'\\seeN2', b'k\\w', b'\\\xc9t\xe9'])
+                sp1 = bytes((c ^ 0x20) if (65 <= c <= 90 or 97 <= c <= 122) and r.random() < 0.4 else c for c in base)
+                sp2 = bytes((c ^ 0x20) if (65 <= c <= 90 or 97 <= c <= 122) and r.random() < 0.4 else c for c in base)
+                fa, fb = Flag(sp1), Flag(sp2)
+                ma, mb = m.ask('flagnorm ' + nats(sp1)), m.ask('flagnorm ' + nats(sp2))
+                part.stat('l1-flag')
+                part.case(key='flag:' + sp1.hex() + ':' + sp2.hex(), nontrivial=sp1 != sp2)
+                if nats(fa.value) != ma:
+                    part.violation('correspondence', f'Flag({sp1!r}).value = {fa.value!r}, FlagText.norm = {bytes(unnats(ma))!r}', dict(level='L1', flag=list(sp1)), signature='l1-flag')
+                if (fa == fb) != (ma == mb) or (fa == fb and hash(fa) != hash(fb)) or (fa == fb) != (len({fa, fb}) == 1):
+                    part.violation('monitor', f'Flag({sp1!r}) and Flag({sp2!r}): equal={fa == fb}, same hash={hash(fa) == hash(fb)}, as a set {len({fa, fb})} element(s); their values are '
+                                   f'{"the same" if ma == mb else "different"}', dict(level='L1', flags=[list(sp1), list(sp2)]), signature='flag-eq-hash')
             part.stat('l1-rounds')
     finally:
         m.close()
@@ -439,10 +453,10 @@ def l1_framing(part, r, n):
 
     def alarm(signum, frame):
         raise Spin()
-    old_handler = signal.signal(signal.SIGALRM, alarm)
+    old_handler = signal.signal(signal.SIGPROF, alarm)
     for s, mres in zip(streams, res):
         with guarded(part, 'C18 L1 framing', dict(level='L1', stream=list(s))):
-            signal.setitimer(signal.ITIMER_REAL, 2.0)
+            signal.setitimer(signal.ITIMER_PROF, 2.0)
             try:
                 got = asyncio.run(real(s))
             except Spin:
@@ -450,14 +464,14 @@ def l1_framing(part, r, n):
                 part.violation('monitor', f'IMAPConnection.readline spins without reading anything on {s[:120]!r} (stream ended)', dict(level='L1', stream=list(s)),
                                signature='framing-spin')
             finally:
-                signal.setitimer(signal.ITIMER_REAL, 0)
+                signal.setitimer(signal.ITIMER_PROF, 0)
             part.stat('l1-framing')
             part.case(key='frame:' + s.hex()[:200], nontrivial=b'+}' in s)
             if got != 'spin':
                 for who, g in zip(('IMAPConnection.readline', 'ManageSieveConnection._read_data'), got):
                     if g != mres:
                         part.violation('correspondence', f'{who} took {g} bytes of {s[:120]!r}, Framing.readCmd {mres}', dict(level='L1', stream=list(s)), signature='l1-framing')
-    signal.signal(signal.SIGALRM, old_handler)
+    signal.signal(signal.SIGPROF, old_handler)
 
 
 def l1_astring(part, r, n):
